@@ -136,8 +136,12 @@ static void drive(Ctx &c, int fr, const std::vector<uint8_t> &input, size_t pref
   bool honest_after_error = false;
   size_t safety_calls = 0;
   struct iovec v[8];
-  while (budget--) {
+  bool budget_hit = false;
+  unsigned side_ops = 0;
+  while (true) {
+    if (!budget--) { budget_hit = true; break; }  // harness budget: the run is then inconclusive for the completeness oracle
     unsigned op = sched == 0 ? 0 : (unsigned)c.weighted({10, 1, 1});
+    if (op && ++side_ops > 16) op = 0;  // size queries and peeks must not starve the decoding itself
     if (op == 1 && fr == FCommand) op = 0;  // the command decoder documents source==NULL as a reset
     if (op == 1) {  // size query: no state change
       decode_state before = st;
@@ -235,6 +239,7 @@ static void drive(Ctx &c, int fr, const std::vector<uint8_t> &input, size_t pref
     honest_after_error = honest;
   }
   // ---- completeness of honest delivery: all leading well-formed frames must have come out
+  if (budget_hit) { c.label("harness-budget-hit"); return; }
   if (honest && !missing_buffer && !dead)
     VP_CHECK(c, delivered == e.msgs.size() || e.then_malformed, "well-formed-frame-not-delivered", "%s: %zu of %zu well-formed frames delivered, decoder then asks for more", kName[fr],
              delivered, e.msgs.size());
